@@ -1,12 +1,12 @@
 SPECIFICATION Spec
 CONSTANTS
   Procs = {"p1"}
-  Scenario <- S1
+  Scenario <- S6
   MaxIno = 20
   KMaxLinks = 40
   TolerateEEXIST = TRUE
   RefuseDotDotTail = TRUE
-  AtkMkdirNames <- const_NoNames
+  AtkMkdirNames <- const_NxNames
   MaxAttack = 1
 INVARIANTS TypeOK OnlyNewDirs MutationsInside
 CHECK_DEADLOCK FALSE
